@@ -202,9 +202,16 @@ def settings_reads(fn):
         # the whole read (value + conversion) sits in a spliced helper - intOption(settings, group + "/key", dflt): the value the caller sees is the
         # helper's result, whatever it does with a missing / zero / malformed setting
         outer = None
+        in_return = False
         for a in fn.ancestors(top):
+            if a.get("k") == "inl_return":
+                in_return = True
             if a.get("k") == "call" and a.get("inl_body") is not None:
-                outer = a
+                # an accessor hands the read out as its result; a phase function (configureFilters(pipeline, settings, group)) that reads the
+                # setting into a local of its own and goes on to use it is just a piece of configure()
+                if in_return:
+                    outer = a
+                in_return = False
         inner = None
         if outer is not None and outer.get("id") != top.get("id"):
             inner, top = top, outer
